@@ -68,8 +68,10 @@ Fixpoint byte_at (ws : list (Z * list N)) (a : Z) : N :=
   end.
 
 (* range_data(): empty when nothing was ever emitted, else data[range] *)
+Fixpoint bytes_from (ws : list (Z * list N)) (a : Z) (n : nat) : list N :=
+  match n with
+  | O => []
+  | S k => byte_at ws a :: bytes_from ws (a + 1) k
+  end.
 Definition range_data (s : segment) : list N :=
-  if g_has_data s then
-    map (fun i => byte_at (g_writes s) (fst (g_range s) + Z.of_nat i))
-        (seq 0 (Z.to_nat (snd (g_range s) - fst (g_range s))))
-  else [].
+  if g_has_data s then bytes_from (g_writes s) (fst (g_range s)) (Z.to_nat (snd (g_range s) - fst (g_range s))) else [].
